@@ -4,6 +4,7 @@ cd "$(dirname "$0")" || exit 1
 export CARGO_NET_OFFLINE=true
 mkdir -p target evidence replays
 (cd harness && cargo build --release --offline) || exit 1
+cargo build --release --offline --manifest-path /repo/Cargo.toml --bin sqlgrep --target-dir /verif/target/cli || exit 1
 if [ -f shim/seedshim.c ]; then
   gcc -O2 -shared -fPIC -o target/seedshim.so shim/seedshim.c -ldl || exit 1
 fi
